@@ -85,7 +85,16 @@ def scc_docs():
          [C.ctrl("EDM"), C.ctrl("EOC")]),
         (C.timecode(200), [C.ctrl("EDM")]),
     ])
-    return [a, b, c]
+    # italics that stay on across two repositionings, and an italic row followed by a preamble for a row on which
+    # nothing is written (what a reader hands to the writers may carry layouts that only a closing style node uses)
+    d = C.scc_document([
+        (C.timecode(30), [C.ctrl("ENM"), C.ctrl("RCL"), C.pac(1, 0, italics=True)] + C.text_words("GHGH") + [C.pac(5, 0, italics=True)] +
+         C.text_words("HGBA") + [C.pac(9, 0, italics=True)] + C.text_words("last") + [C.ctrl("EDM"), C.ctrl("EOC")]),
+        (C.timecode(200), [C.ctrl("ENM"), C.ctrl("RCL"), C.pac(1), C.midrow(True)] + C.text_words("AB") + [C.pac(3)] +
+         [C.ctrl("EDM"), C.ctrl("EOC")]),
+        (C.timecode(400), [C.ctrl("EDM")]),
+    ])
+    return [a, b, c, d]
 
 
 DOCS = {"srt": SRT_DOCS, "webvtt": VTT_DOCS, "microdvd": MDVD_DOCS, "dfxp": DFXP_DOCS, "sami": SAMI_DOCS}
